@@ -656,6 +656,14 @@ def fteik2d_vectorized(slow, dz, dx, zsrc, xsrc, nsweep=2, grad=False):
         else np.empty((nsrc, 0, 0, 0), dtype=np.float64)
     )
     vzero = np.empty(nsrc, dtype=np.float64)
+
+    # Exceptions cannot be raised from within a parallel loop: check inputs first
+    for i in range(nsrc):
+        condz = 0.0 <= zsrc[i] <= dz * nz
+        condx = 0.0 <= xsrc[i] <= dx * nx
+        if not (condz and condx):
+            raise ValueError("source out of bound")
+
     for i in prange(nsrc):
         tt[i], ttgrad[i], vzero[i] = fteik2d(
             slow, dz, dx, zsrc[i], xsrc[i], nsweep, grad
